@@ -172,7 +172,7 @@ func summarise(profile string, want []string) (map[string]*funcCov, error) {
 		rel := strings.TrimPrefix(m[1], rjsonImport)
 		fi, ok := files[rel]
 		if !ok {
-			fi, err = parseRepoFile(filepath.Join("/repo", rel))
+			fi, err = parseRepoFile(filepath.Join(repoDir, rel))
 			if err != nil {
 				files[rel] = nil
 				continue
